@@ -360,7 +360,7 @@ class World:
         syms = cfg["symbols"]
         if t == "C":
             symbolic = r.choice([0.0, 0.0, 0.4])
-            spec = gen.rand_circuit(r, n, r.randint(0, 5), phase_ops=r.choice([0, 0, 0.2]) if not symbolic else 0, explicit_n=0.5, max_arity=min(n, 3),
+            spec = gen.rand_circuit(r, n, r.randint(0, 5), phase_ops=r.choice([0, 0.2, 0.35]) if not symbolic else 0, explicit_n=0.5, max_arity=min(n, 3),
                                     symbolic=symbolic, symbols=syms, custom=0.15, wrappers=0.3, depth=2, powexp=False)
             return {"t": "C", "spec": spec}
         if t == "G":
